@@ -1,5 +1,7 @@
 import SasLexer.Spec.C06
 import SasLexer.Lex.Main
+import SasLexer.Proofs.Model.ChanFns
+import SasLexer.Proofs.Model.ChanSound
 /-!
 # C06 — a token's text has the lexical shape its type and channel promise: theorems
 
@@ -10,6 +12,15 @@ keyword of the regenerated keyword maps.  The emit-site obligations (≈ 90 `emi
 "the text between the token start and the cursor has the shape of the emitted type") are
 model-level and not proved; they are decided per run by `Spec.C06` on every token of every
 implementation dump and tied by correspondence on (type, channel, payload, offsets).
+
+Proved for the model, **every input, both profiles, every way the run can end** (`C06_model_channels`): the channel
+sentence of C06 in its context-free reading (`Spec/ChanTable.lean`: comment types ⇔ comment channel; `WS`,
+`CatchAll`, `%str/%nrstr` always hidden; besides them only `COLON` and the parentheses may be hidden; everything
+else on the default channel).  `Proofs/Model/Chan.lean` defines a state-free discipline `ChanR` (every emitted /
+retyped / inserted token obeys the table, every pushed `ExpectSymbol(ty, ch)` has `chanOK ch ty`, mode-stack reads
+return modes with that property); `ChanFns.lean` proves it for all ≈ 110 functions of the control logic — the
+computed types come with their own lemmas (keyword tables by `decide +kernel`, numeric parsers, mnemonics, literal
+endings) —; `ChanSound.lean` proves it sound against the primitives (`step_ChInv`, `ChanR_sound`).
 -/
 namespace SasLexer
 
@@ -28,5 +39,74 @@ theorem C06_keyword_rows :
 example : Spec.C06 "x='a''b'd; %let q=%str(a%'b); y=&&v&i..z 0ffx $f5.2 /*c*/ *s;".toList
     (modelDump ⟨true, true, false⟩ "x='a''b'd; %let q=%str(a%'b); y=&&v&i..z 0ffx $f5.2 /*c*/ *s;".toList) = [] := by
   decide +kernel
+
+theorem new_ChInv (cfg : Cfg) (s : List Char) : ChInv (Lexer.new cfg s) := by
+  refine ⟨?_, ?_⟩
+  · intro t ht; simp [Lexer.new, Lexer.bufAddLine] at ht
+  · intro m hm
+    simp [Lexer.new, Lexer.bufAddLine] at hm
+    subst hm; trivial
+
+theorem intoDetached_ChInv (cfg : Cfg) (L : Lexer) (h : ChInv L) :
+    ∀ t ∈ (L.intoDetached cfg).1.toks, chanOK t.chan t.ty = true := by
+  unfold Lexer.intoDetached
+  have e : (if L.linesR.isEmpty = true then (L.bufAddLine cfg 0 0).2 else L).toksR = L.toksR := by split <;> rfl
+  generalize (if L.linesR.isEmpty = true then (L.bufAddLine cfg 0 0).2 else L) = L1 at e
+  simp only
+  intro t ht
+  simp only [List.mem_reverse] at ht
+  cases hl : L1.toksR with
+  | nil =>
+    simp only [hl, List.mem_cons, List.not_mem_nil, or_false] at ht
+    subst ht; rfl
+  | cons a b =>
+    simp only [hl] at ht
+    split at ht
+    · exact h.toks t (by rw [← e]; first | exact ht | (rw [hl]; exact ht))
+    · simp only [List.mem_cons] at ht
+      rcases ht with rfl | ht
+      · rfl
+      · exact h.toks t (by rw [← e]; first | exact ht | (rw [hl]; simpa using ht))
+
+/-- **C06, channel table, for the model: every input, both profiles, every ending.** -/
+theorem model_channels (cfg : Cfg) (s : List Char) : ∀ t ∈ (lexProgram cfg s).buf.toks, chanOK t.chan t.ty = true := by
+  unfold lexProgram
+  simp only
+  have h0 := new_ChInv cfg s
+  have h1 := (ChanR_sound cfg (mainLoop cfg (budgetMul * (Lexer.new cfg s).srcLen + 64) 0 ((Lexer.new cfg s).srcLen, [Mode.default]))
+    (fun _ => True) (Lexer.new cfg s) (mainLoop_chan cfg _ _ _ (fun _ => trivial)) h0).1
+  generalize hR : Prog.run cfg (mainLoop cfg (budgetMul * (Lexer.new cfg s).srcLen + 64) 0 ((Lexer.new cfg s).srcLen, [Mode.default]))
+    (Lexer.new cfg s) = R at h1
+  obtain ⟨ra, L1⟩ := R
+  cases ra with
+  | none => intro t ht; simp at ht
+  | some en =>
+    obtain ⟨e, n⟩ := en
+    simp only at h1 ⊢
+    have h2 := (ChanR_sound cfg (finalizeLexing cfg) (fun _ => True) L1 (finalizeLexing_chan cfg (fun _ => trivial)) h1).1
+    by_cases hdet : e = .detected
+    · subst hdet
+      simp only [beq_self_eq_true, if_true]
+      cases L1.panicked with
+      | some m => intro t ht; simp at ht
+      | none => exact intoDetached_ChInv cfg L1 h1
+    · have hb : (e == LoopEnd.detected) = false := by simpa using hdet
+      simp only [hb, Bool.false_eq_true, if_false]
+      cases (Prog.run cfg (finalizeLexing cfg) L1).2.panicked with
+      | some m => intro t ht; simp at ht
+      | none => exact intoDetached_ChInv cfg _ h2
+
+theorem C06_model_channels (cfg : Cfg) (s : List Char) :
+    ((modelDump cfg s).toks.all fun t => chanOK t.chan t.ty) = true := by
+  rw [List.all_eq_true]
+  unfold modelDump
+  split
+  · intro t ht; simp [emptyDump] at ht
+  · simp only
+    split
+    · split <;> (intro t ht; simp [emptyDump] at ht)
+    · simp only [dumpOfBuf]
+      exact model_channels cfg s
+
 
 end SasLexer
